@@ -340,10 +340,6 @@ def symclass(cps):
         return "abbrev-prefix:" + {"'": "quote", "`": "backquote", ",": "comma"}[s[0]]
     if any(c in s for c in "()\";"):
         return "delimiter"
-    if any(c in s for c in "'`,"):
-        return "abbrev-char-inside"
-    if any(c in s for c in "{}[]"):
-        return "bracket"
     low = s.lower()
     if re.match(r"^[+-](inf|nan)\.0", low):
         return "infnan" + ("" if s == low else "-uppercase")
@@ -359,6 +355,10 @@ def symclass(cps):
         return "peculiar"
     if s[0] == ".":
         return "dot-first"
+    if any(c in s for c in "'`,"):
+        return "abbrev-char-inside"
+    if any(c in s for c in "{}[]"):
+        return "bracket"
     if any(c.isupper() for c in s):
         return "uppercase"
     return "plain"
@@ -592,7 +592,6 @@ def add_tlc_graphs(cs, graphs):
         g = G()
         for nd in e["g"]["n"]:
             g.add(nd["k"], nd["c"], nd["p"])
-        ncomp = sum(1 for nd in e["g"]["n"] if nd["k"] in ("pair", "vec"))
         cs.add("tlc-graph:%s%s" % ("cyclic" if e["cyc"] else "acyclic", "-shared" if e["shr"] else ""), g, root=e["g"]["r"], cyc=e["cyc"])
 
 
@@ -1072,7 +1071,6 @@ def gen_texts(rng, written, thorough):
               "#b": {"int": ["101", "0"], "bigint": ["1" + "01" * 40], "ratio": ["101/11"]},
               "#o": {"int": ["17", "0"], "bigint": ["7654321" * 5], "ratio": ["17/5"]}}
     bodies["#d"] = bodies[""]
-    extra = rng.sample(range(10 ** 6), 3) if thorough else []
     for radix in ("", "#d", "#x", "#b", "#o"):
         for exact in ("", "#e", "#i"):
             for pre in sorted(set([radix + exact, exact + radix])):
@@ -1137,7 +1135,7 @@ def run():
             size += w
         if cur:
             batches.append(cur)
-        rejs, tot, keep, written = [], [0] * 6, {}, []
+        rejs, tot, written = [], [0] * 6, []
         selftested = False
         for bi, batch in enumerate(batches):
             r1, t1, by = campaign(chk, sc, build, batch, "rt", "rt%d" % bi, jobs_drv=8, jobs_tlc=6 if not thorough else 10)
